@@ -276,6 +276,26 @@ class Machine(object):
                         cf.bigarray = [np.array(d, float) for d in data]
                     for c, t in enumerate(titles):
                         new_model[t] = data[c]
+                elif name.startswith("invalid_"):
+                    # fault: an argument the operation must refuse (wrong length, ragged).  The model does not change;
+                    # whatever the object does (it should raise), the invariants must hold afterwards
+                    if not titles or nrows == 0:
+                        return None
+                    bad = nrows + 1 + op["extra"]
+                    t = pick_title(op["col"])
+                    self.invalid_ops = getattr(self, "invalid_ops", 0) + 1
+                    if name == "invalid_addcolumn":
+                        cf.addcolumn(np.zeros(bad), op["name"] if op["name"] not in model else t)
+                    elif name == "invalid_filter":
+                        cf.filter(np.ones(bad, bool))
+                    elif name == "invalid_setattr":
+                        setattr(cf, t, np.zeros(bad))
+                    elif name == "invalid_set_bigarray":
+                        cols = [np.zeros(bad)] + [np.zeros(nrows) for _ in titles[1:]]
+                        if len(cols) == 1:
+                            cols = [np.zeros(bad)]
+                            return None
+                        cf.bigarray = cols
                 elif name == "keys":
                     if list(cf.keys()) != titles:
                         return self.V("titles", "keys() %s vs %s" % (cf.keys(), titles))
@@ -300,11 +320,16 @@ def gen_ops(rnd, nops):
     weights = [("addcolumn_new", 5), ("setitem_new", 2), ("addcolumn_existing", 3), ("setcolumn", 2), ("setitem_array", 2),
                ("setattr_array", 3), ("setitem_scalar", 2), ("setattr_scalar", 3), ("addcolumn_from_existing", 2),
                ("write_attr", 3), ("write_item", 2), ("write_getcolumn", 2), ("filter", 4), ("removerows", 3), ("sortby", 3),
-               ("reorder", 3), ("copy", 2), ("copyrows", 3), ("get_bigarray", 4), ("set_bigarray", 2), ("keys", 1)]
+               ("reorder", 3), ("copy", 2), ("copyrows", 3), ("get_bigarray", 4), ("set_bigarray", 2), ("keys", 1),
+               ("invalid_addcolumn", 1), ("invalid_filter", 1), ("invalid_setattr", 1), ("invalid_set_bigarray", 1)]
     names = [n for n, w in weights for _ in range(w)]
     for _ in range(nops):
         n = rnd.choice(names)
         op = {"op": n, "obj": rnd.randint(0, 2)}
+        if n.startswith("invalid_"):
+            op["extra"] = rnd.randint(0, 3)
+            op["col"] = rnd.randint(0, 11)
+            op["name"] = rnd.choice(NAMES)
         if n in ("addcolumn_new", "setitem_new", "addcolumn_from_existing"):
             op["name"] = rnd.choice(NAMES)
             op["asarray"] = rnd.random() < 0.8
@@ -342,7 +367,7 @@ class C17(object):
     id = "C17"
     engine = "histsim"
     time_keys = {"operations": "operations applied to the system and the model"}
-    fault_keys = ["operations_that_raised"]
+    fault_keys = ["operations_that_raised", "invalid_arguments_injected"]
     tiers = {"quick": {"runs": 40000, "budget_s": 60, "selftest_every": 100, "fresh_selftest": 10},
              "thorough": {"runs": 9000000, "budget_s": 800, "selftest_every": 1000, "fresh_selftest": 20}}
     rule = ("one run = one history: initial columnfile (empty | dict-built | text-file-loaded | HDF-loaded) followed by "
@@ -391,6 +416,7 @@ class C17(object):
                     break
         opn = collections.Counter(op["op"] for op in desc["ops"][:done])
         meas = {"operations": done, "ops": dict(opn), "operations_that_raised": m.raised,
+                "invalid_arguments_injected": getattr(m, "invalid_ops", 0),
                 "objects_alive_at_end": len(m.objs), "init_kind": {desc["init"]["kind"]: 1},
                 "model_states": len(m.states)}
         sig = enginea.sha(sorted(m.states))
